@@ -15,16 +15,16 @@ PROP = 'C11'
 LEVEL = 'exploration'
 RULE = ('Exhaustive: every line up to length 7 (quick) / 9 (thorough) over the class alphabet {quote, delimiter, space, other} for delimiters '
         ', ; TAB | (and {quote, space=delimiter, other} for the space delimiter), plus {quote, delimiter, space, other, first char of the delimiter} '
-        'up to length 6/7 for multi-character delimiters (::, ###, ab, <>), policies quoted and quoted_rfc; each line goes through csv_utils.smart_split '
+        'up to length 5/7 for multi-character delimiters (::, ###, ab, <>, and two that contain a space but do not begin with one: ", " and "a b"), policies quoted and quoted_rfc; each line goes through csv_utils.smart_split '
         '(both preserve modes) and through rbql_csv.CSVRecordIterator over a one-line stream. Random relabelling of every "other" symbol by independent '
         'Unicode characters; Hypothesis long lines (<=200 chars, full Unicode) for all five policies. Oracle = hand-written reference splitter '
         '(fields, warning <=> an unquoted field contains a quote), dlm.join(preserved) == line, unquote(preserved[i]) == fields[i]; simple / '
         'whitespace / monocolumn against str.split(d), split on runs of spaces, identity. Non-trivial = line contains a quote and a delimiter; '
         'enumerated lines are distinct by construction.')
-ASSUMPTIONS = ['lines handed to the record iterator contain no CR/LF (line breaking is C12); direct smart_split calls also get LF / CR as ordinary characters', 'delimiter is not the double quote and contains no space/quote when multi-character']
+ASSUMPTIONS = ['lines handed to the record iterator contain no CR/LF (line breaking is C12); direct smart_split calls also get LF / CR as ordinary characters', 'delimiter is not the double quote; a multi-character delimiter contains no quote and does not begin with a space (optional spaces after a closing quote would be ambiguous)']
 
 SINGLE = [',', ';', '\t', '|']
-MULTI = ['::', '###', 'ab', '<>']
+MULTI = ['::', '###', 'ab', '<>', ', ', 'a b']
 
 
 def plan(tier):
@@ -87,7 +87,7 @@ def enum_jobs(tier):
         jobs.append((d, ['"', d, ' ', 'x'], 7 if q else 9))
     jobs.append((' ', ['"', ' ', 'x'], 8 if q else 10))
     for d in MULTI:
-        jobs.append((d, ['"', d, ' ', 'x', d[0]], 5 if q else 7))
+        jobs.append((d, list(dict.fromkeys(['"', d, ' ', 'x', d[0], d[-1]])), 5 if q else 7))
     return jobs
 
 
